@@ -479,3 +479,106 @@ CONTRACTS += [
              cases=[(v, 'simple', a, 'I') for v in 'I$D' for a in 'IL$'] + [(v, 'compare', a, 'I') for v in 'I$' for a in 'I$'] +
                    [(v, 'range', a, b) for v in 'I$D' for a in 'IS$' for b in 'IS$']),
 ]
+
+
+# ------------------------------------------------------------------ CONST: the constant has the type of its name (C01)
+
+KF_CONST_SUFFIX = 'KF-C01-const-type-suffix-ignored'
+_CT = {'I': 'INTEGER', 'L': 'LONG', 'S': 'SINGLE', 'D': 'DOUBLE', '$': 'STRING'}
+_SUFFIX_OF = {'%': 'I', '&': 'L', '!': 'S', '#': 'D', '$': '$'}
+
+
+def body_const_type(h, suffix, u):
+    """CONST name<suffix> = <literal of type u>, then one use of the name: the node the passes put in place of the use
+    has the type the name declares (its type character; the type of the value for a name without one) and evaluates
+    to the value converted to that type; a string for a numeric name (or the reverse), or a number that does not fit,
+    is a compile error at the declaration - it is never a constant of another type"""
+    from spec import qb_expr
+    cu = CompilationUnit()
+    main = cu.main_routine
+    tu = _CT[u]
+    if u == '$':
+        v = h.str('value')
+        lit = h.call(expr.StringLiteral, v) if h.symbolic else None
+        if not h.symbolic:
+            lit_v = expr.StringLiteral(v)
+    else:
+        if u in 'IL':
+            lo, hi = (-32768, 32767) if u == 'I' else (-2 ** 31, 2 ** 31 - 1)
+            v = h.int('value', lo, hi)
+        elif u == 'S':
+            v = h.float32('value')
+        else:
+            v = h.float('value')
+        lit = h.call(expr.NumericLiteral, v, T[u]) if h.symbolic else None
+        if not h.symbolic:
+            lit_v = expr.NumericLiteral(v, T[u])
+    if h.symbolic:
+        if not lit.returned:
+            h.prove('literal.no_exception', False, detail=repr(lit))
+            return
+        lit_v = lit.value
+    name = 'k' + suffix
+    decl = object.__new__(stmt.ConstStmt)
+    decl.name, decl.value, decl.parent = name, lit_v, None
+    decl._parent_routine = main
+    decl._context = cu
+    decl.loc_start, decl.loc_end = 3, 20
+    lit_v.parent = decl
+    lit_v._parent_routine = main
+    lit_v._context = cu
+    lit_v.loc_start, lit_v.loc_end = 12, 20
+    p1 = Pass2(cu)
+    d = h.call(p1.process_const_pre, decl)
+    tdecl = _CT[_SUFFIX_OF[suffix]] if suffix else tu
+    same_kind = (tdecl == 'STRING') == (tu == 'STRING')
+    conv = ('ok', v) if tdecl == tu else (h.spec(qb_expr.convert, v, tu, tdecl) if same_kind else ('mismatch',))
+    ignored = bool(suffix) and tdecl != tu
+    known = [(KF_CONST_SUFFIX, ignored)]
+    if not d.returned:
+        ok = d.raised(CompileError)
+        h.prove('declaration_only_fails_with_a_compile_error', ok, detail=repr(d))
+        h.prove('declaration_rejected_only_if_the_value_cannot_have_the_declared_type', conv[0] != 'ok', detail=repr(d))
+        return
+    h.prove('value_that_cannot_have_the_declared_type_is_rejected', conv[0] == 'ok', known=known,
+            detail=f'CONST {name} = <{tu}> accepted')
+    if conv[0] != 'ok':
+        return
+    # one use
+    use = expr.Lvalue(name, [], [])
+    use._parent_routine = main
+    use._context = cu
+    use.loc_start, use.loc_end = 30, 32
+    holder = object.__new__(expr.ParenthesizedExpr)
+    holder.child, holder.parent = use, None
+    holder._context, holder._parent_routine = cu, main      # the compiler binds every node of the tree
+    holder.loc_start, holder.loc_end = 29, 33
+    use.parent = holder
+    o = h.call(p1.process_lvalue_pre, use)
+    if not o.returned:
+        h.prove('use.no_exception', False, detail=repr(o))
+        return
+    r = holder.child
+    h.prove('use_replaced_by_a_constant_expression', r is not use and bool(getattr(r, 'is_const', False)))
+    rt = h.call(type(r).type.fget, r)
+    if not rt.returned:
+        h.prove('use.type.no_exception', False, detail=repr(rt))
+        return
+    h.prove('constant_has_the_type_its_name_declares', rt.value == T[_SUFFIX_OF[suffix]] if suffix else rt.value == T[u],
+            known=known, detail=f'CONST {name} = <{tu}>: use has type {rt.value}')
+    ev = h.call(r.eval)
+    if not ev.returned:
+        h.prove('use.eval.no_exception', False, detail=repr(ev))
+        return
+    from contracts.vm import same
+    h.prove('constant_has_the_value_converted_to_that_type', same(ev.value, conv[1]), known=known,
+            detail='' if h.symbolic else f'CONST {name} = {v!r}: use evaluates to {ev.value!r}, want {conv[1]!r}')
+    h.prove('use_keeps_its_own_position', r.loc_start == 30)
+
+
+CONTRACTS += [
+    Contract('const.declared_type', ['C01'], ['qbee.compiler:Pass2.process_const_pre', 'qbee.compiler:Pass2.process_lvalue_pre',
+                                             'qbee.node:Node.clone', 'qbee.node:Node.replace_child'], body_const_type,
+             cases=[(s, u) for s in ('', '%', '&', '!', '#', '$') for u in 'ILSD$'],
+             trusted=['the constant value is a literal of each type with a symbolic value (constant expressions: expr.fold_* contracts)']),
+]
